@@ -327,6 +327,7 @@ def _robust_case(target):
         'n_pending': st.integers(0, 3), 'n_handlers': st.integers(0, 3),
         'inputs': st.lists(_input_spec(), min_size=1, max_size=6),
         'mode': st.sampled_from(['await', 'task']),
+        'debug_log': st.sampled_from([False, False, False, True]),
         'buf': st.sampled_from([0, 0, 1, 2, 3]),     # the face hands packets over as bytes / memoryview / bytearray / writable memoryview
     })
 
@@ -338,7 +339,9 @@ def run_robust(case):
     sim = AppSim(fe)
     sim.start()
     keys = set()
-    classes = [target]
+    classes = [target] + (['debug-log'] if case.get('debug_log') else [])
+    dl = net.debug_logging(bool(case.get('debug_log')))     # reception must not fail because somebody turned the log level up
+    dl.__enter__()
     try:
         # bystanders
         pend = []
@@ -397,6 +400,7 @@ def run_robust(case):
         if n_eval == 0:
             r.discarded = True
     finally:
+        dl.__exit__()
         sim.finish()
         sim.close()
     r.key = sorted(map(str, keys)) if keys else None
